@@ -108,6 +108,14 @@ Theorem bw_delaunay : forall pts ts,
 Proof. exact bw_delaunay_proof. Qed.
 Print Assumptions bw_delaunay.
 
+(* hence the model's output passes the certified checker that judges every output of the Go code: what
+   the binding compares the implementation with is itself proved to satisfy the oracle *)
+Theorem bw_passes_checker : forall pts ts,
+  (3 <= length pts)%nat -> gp_strong (pts ++ super_fixed pts) -> bw pts = Some ts ->
+  delaunayb pts ts = true.
+Proof. exact bw_passes_checker_proof. Qed.
+Print Assumptions bw_passes_checker.
+
 (* ... under every order in which the n+1 loops may walk the Go map *)
 Theorem bw_delaunay_any_map_order : forall sched pts ts,
   (forall k T, Permutation (sched k T) T) ->
